@@ -11,7 +11,7 @@
 #define NTOK 6
 #define MAXOPS 6
 #define MAXACT 4
-enum { O_PUSH, O_PUSHMANY, O_POP, O_POPMANY, O_POPWAIT, O_POPTIMED, O_REMOVE, O_REPUSH, O_SIZE, O_POPLONG, O_POPTIMEDLONG, O_RREMOVE };
+enum { O_PUSH, O_PUSHMANY, O_POP, O_POPMANY, O_POPWAIT, O_POPTIMED, O_REMOVE, O_REPUSH, O_SIZE, O_POPLONG, O_POPTIMEDLONG, O_RREMOVE, O_POPLONGRETRY };
 typedef struct {
     int op, u, v, ctx, k;
 } op_t;
@@ -165,6 +165,34 @@ static void do_op(actor_t *a, op_t *o)
                 EV("\"e\":\"Ret\",\"t\":%d,\"op\":\"pop\",\"r\":[]", id);
             if (u > 0)
                 take(a, u);
+            break;
+        }
+        case O_POPLONGRETRY: {
+            /* several consumers sleep in blocking pops with time limits that are never reached;
+             * one that is woken for a unit somebody else took in the meantime comes back
+             * empty-handed (legal: the pool was empty then) and simply waits again */
+            for (int tries = 0; tries < 1000; tries++) {
+                int u;
+                EV("\"e\":\"Call\",\"t\":%d,\"op\":\"pop\",\"k\":1,\"tl\":%d", id, TL(o));
+                if (o->k) {
+                    ABT_unit un = ABT_UNIT_NULL;
+                    double abst = (double)abtv_now_ns() * 1e-9 + 1000.0;
+                    CHK(ABT_pool_pop_timedwait(g_pool, &un, abst));
+                    u = unit_tok(un);
+                } else {
+                    ABT_thread t = ABT_THREAD_NULL;
+                    CHK(ABT_pool_pop_wait_thread_ex(g_pool, &t, 1000.0, pop_ctx(TL(o) ? 2 : 0)));
+                    u = tok_id(t);
+                }
+                if (u)
+                    EV("\"e\":\"Ret\",\"t\":%d,\"op\":\"pop\",\"r\":[%d]", id, u);
+                else
+                    EV("\"e\":\"Ret\",\"t\":%d,\"op\":\"pop\",\"r\":[]", id);
+                if (u > 0) {
+                    take(a, u);
+                    break;
+                }
+            }
             break;
         }
         case O_POPTIMEDLONG: {
@@ -330,7 +358,9 @@ static void scenario(const char *name, uint64_t seed)
          * issue exactly NTOK blocking pops between them */
         if (access == 0)
             abtv_fail("broken:shape2-needs-shared-pool", ABTV_EXIT_BROKEN);
-        int ncons = 1; /* with several consumers an early empty return is legitimate (the time is a hint) */
+        /* one consumer, or two that sleep at the same time (every pop still finds a unit in the end:
+         * as many units are pushed as pops are issued, and the time limits are never reached) */
+        int ncons = 1 + rnd(2);
         nact = 1 + ncons;
         for (int i = 0; i < nact; i++) {
             memset(&g_act[i], 0, sizeof g_act[i]);
@@ -361,6 +391,12 @@ static void scenario(const char *name, uint64_t seed)
                 memset(o, 0, sizeof *o);
                 o->op = rnd(3) ? O_POPLONG : O_POPTIMEDLONG;
                 o->ctx = (g_kind == 2) ? (rnd(2) ? 2 : 0) : 0;
+                if (ncons > 1) {
+                    o->k = o->op == O_POPTIMEDLONG;
+                    o->op = O_POPLONGRETRY;
+                    if (o->k)
+                        o->ctx = 0;
+                }
             }
         }
         goto launch;
